@@ -71,6 +71,14 @@ def bench_scenarios(tier, seed):
         if rnd.random() < 0.15:
             sc["options"]["max_time_ns"] = 0
         sc["alloc_script"] = G.rand_alloc_script(rnd, heavy=True)
+        if "sample_size" not in sc["options"] and rnd.random() < 0.6:
+            # allocator activity only in some of a thread's calls: warm-up allocations
+            # (first calls, i.e. the tuning rounds that get discarded) or late ones
+            sc["alloc_script"] = {"call": [{"op": "alloc", "size": rnd.choice([8, 64, 4096])}] + G.rand_ops(rnd, 1)}
+            if rnd.random() < 0.7:
+                sc["alloc_script"]["call_until"] = rnd.choice([1, 1, 2, 3, 6])
+            else:
+                sc["alloc_script"]["call_from"] = rnd.choice([2, 5, 9])
         sc["costs"]["call_noise"] = rnd.choice([[], [0, 50, 3], [7, 7, 1000, 0]])
         sc["costs"]["call_inc"] = rnd.choice([0, 1, 13])
         if rnd.random() < 0.5:
